@@ -5,7 +5,7 @@ import sys
 
 from .builtins import builtin_commands
 from .containers import CaseInsensitiveDict
-from .deferred import Promise, wait, BaseDeferred, Deferred, SizedDeferred, DeferredCycle, try_compute
+from .deferred import Promise, wait, BaseDeferred, Deferred, SizedDeferred, DeferredCycle, try_compute, Progress
 from .devices import open_device
 from .formats import file_formats, ImageTooLarge
 from .metacommand_impl import get_as_int, describe_int
@@ -53,6 +53,7 @@ class Compiler:
         self.next_internal_symbol_prefix += 1
         code = self.compile_block(state, file.body, start)
         state["file_status"]["compiled"] = True
+        Progress.made()
         return code
 
 
@@ -177,6 +178,7 @@ class Compiler:
             return
 
         self.symbols[name] = (label, addr)
+        Progress.made()
 
         if label.is_extern:
             self.declare_external_symbol(label, label.name, state)
@@ -201,6 +203,7 @@ class Compiler:
 
         state["internal_symbols_list"].append(insn.target.name)
         self.symbols[name] = (insn, Deferred[int](lambda: insn.value.resolve(state), insn.target.name))
+        Progress.made()
 
         if insn.is_extern:
             self.declare_external_symbol(insn, insn.target.name, state)
@@ -272,6 +275,7 @@ class Compiler:
             )
         else:
             self.extern_symbols_mapping[name] = location, state["internal_symbol_prefix"] + name
+            Progress.made()
 
 
     def compile_insn(self, insn, state):
